@@ -1147,14 +1147,16 @@ where
         }
         let mut safe = self.safe.write().await;
         if let None = safe.active_blob {
-            let blob_opt = safe.blobs.write().await.pop();
-            if let Some(mut blob) = blob_opt {
-                // An active blob must have its index in memory to accept writes
-                // (the index of a closed blob may have been dumped to disk already)
-                if let Err(e) = blob.load_index().await {
-                    safe.blobs.write().await.push(blob).await;
-                    return Err(e);
-                }
+            let mut blobs = safe.blobs.write().await;
+            // An active blob must have its index in memory to accept writes (the index of a closed
+            // blob may have been dumped to disk already). The index is loaded while the blob is still
+            // in the closed list, so neither an error nor a dropped future can lose the blob
+            if let Some(last) = blobs.last_id().and_then(|id| blobs.get_child_mut(id)) {
+                last.data.load_index().await?;
+            }
+            let blob_opt = blobs.pop();
+            drop(blobs);
+            if let Some(blob) = blob_opt {
                 safe.active_blob = Some(Box::new(ASRwLock::new(blob)));
                 Ok(())
             } else {
